@@ -238,6 +238,8 @@ where
                 Some(k) => {
                     // A weakly compatible match has been found.
                     edges[state_i].insert(sym, k);
+                    #[cfg(grmtools_verif)]
+                    crate::verif::note_merge();
                     if core_states[usize::from(k)].weakly_merge(&nstate) {
                         // We only do the simplest change propagation, forcing possibly
                         // affected sets to be entirely reprocessed (which will recursively
@@ -250,6 +252,8 @@ where
                         if closed_states[usize::from(k)].is_some() {
                             closed_states[usize::from(k)] = None;
                             todo += 1;
+                            #[cfg(grmtools_verif)]
+                            crate::verif::note_requeue();
                         }
                     }
                 }
@@ -346,6 +350,8 @@ where
         );
     }
 
+    #[cfg(grmtools_verif)]
+    crate::verif::note_gc(states.len() - seen.len());
     if states.len() == seen.len() {
         // Nothing to garbage collect.
         return (states, edges);
